@@ -868,7 +868,8 @@ static RunResult run_preempt(const Plan& p, const RunOpts& o) {
     }
     E.monitor = false; E.seam_chase = E.write_chase = E.yield_at_op = false;
     r.sched_hash = sched_h;
-    log.line(strf("schedule %016llx quanta=%llu", (unsigned long long)sched_h, (unsigned long long)total_quanta));     // the interleaving is part of the run's identity
+    // (the schedule is not part of the run's identity: a correct library may do one-time initialisation in whichever run comes
+    // first in a process, which shifts edge counts; transcripts must not depend on it, and that is what is compared)
     r.st.add("quanta", total_quanta);
     r.st.add("shared_stores", E.shared_stores);
     if (E.under_lock_accesses) { r.st.add("mon_accesses_under_lock", E.under_lock_accesses); E.under_lock_accesses = 0; }
